@@ -77,8 +77,8 @@ STRS = {}
 
 def cstr(s):
     """string literals are bound once in the header (Coq's string notation is slow to elaborate)"""
-    if any(ord(c) < 0x20 or ord(c) > 0x7e for c in s):
-        raise SkipModel("string with non-printable / non-ASCII characters")
+    if any(ord(c) < 0x20 or ord(c) == 0x7f for c in s):
+        raise SkipModel("string with control characters")
     lit = '"%s"' % s.replace('"', '""')
     if lit not in STRS:
         STRS[lit] = "str%d" % len(STRS)
@@ -209,6 +209,12 @@ def process(chk, recs, stats):
                 replay["text"] = r["text"]
             else:
                 replay["hex"] = r["hex"]
+            if r.get("solve") in ("panic", "hang"):
+                if r.get("solve") == "panic" and r["mut"].startswith("string"):
+                    stats["fault_panic"] += 1
+                    chk.violation(dict(replay, what="a file accepted by load_from_file panics in the subsequent solve (string-valued setting near-miss)"))
+                else:
+                    stats["solve_after_load_abnormal"] += 1
             if obs in ("panic", "hang"):
                 stats["fault_panic"] += 1
                 chk.violation(dict(replay, what="load_from_file %s on a malformed file (must be an error)" % obs))
@@ -232,6 +238,17 @@ def process(chk, recs, stats):
             positional = ("positional" in r["mut"]) or ("as array" in r["mut"])
             cases.append({"id": len(cases), "op": "fault-positional" if positional else "fault", "input": {"base": r["base"], "mut": r["mut"], "sha": hashlib.sha1(r["text"].encode()).hexdigest()},
                           "coq": coq, "replay": replay, "observed": obs})
+        elif kind == "sites":
+            stats["sites"] += 1
+            try:
+                coq = "chk_sites %d%%N %s %s %s %s" % (r["which"], cstr(r["name"]), b(r["validator"]), b(r["builder"]), b(r["consumer"]))
+            except SkipModel:
+                continue
+            cases.append({"id": len(cases), "op": "sites", "input": {"which": r["which"], "name": r["name"]}, "coq": coq,
+                          "replay": {"property": "C19", "kind": "sites", "which": r["which"], "name": r["name"],
+                                     "validator": r["validator"], "builder": r["builder"], "consumer": r["consumer"]}})
+        elif kind == "sites_meta":
+            stats["merge_consumer_reached"] = bool(r["merge_consumer_reached"])
         elif kind == "defaults":
             names = "[%s]" % ";".join('"%s"' % n for n in r["names"])
             cases.append({"id": len(cases), "op": "defaults", "input": {"names": r["names"]},
@@ -274,6 +291,8 @@ def judge(chk, bad, stats):
             # the positional (array) form of a struct depends on the declaration order of its
             # fields, which is not an observable the property talks about: information only
             stats["positional_form_disagreements"] += 1
+        elif case["op"] == "sites":
+            chk.violation(dict(rp, what="validator (DefaultSettings::validate / builder) or consumer (DefaultSolver::new) of an enum-like string setting disagrees with the model's exact-match predicates: the two sites no longer accept the same names"))
         elif case["op"] == "fault":
             chk.violation(dict(rp, what="model predicts %s for this syntactically valid file, load_from_file returned %s" % ("Err" if case["observed"] == "ok" else "Ok", case["observed"])))
         else:
@@ -324,7 +343,10 @@ def model_bases(settings):
                 ("genpow", {"GenPowerConeT": [[0.5, 0.5], 1]}, 3), ("psd", {"PSDTriangleConeT": 2}, 3)]
     bases = [("model:" + nm, doc([c], m, small)) for nm, c, m in variants]
     allc = [c for _, c, _ in variants]
-    bases.append(("model:all", doc(allc, sum(m for _, _, m in variants), settings)))
+    # every cone variant together (small settings) and, separately, the full 42-field settings
+    # object on a one-cone problem: every field of both is mutated, in smaller files
+    bases.append(("model:all", doc(allc, sum(m for _, _, m in variants), small)))
+    bases.append(("model:settings", doc([{"NonnegativeConeT": 2}], 2, settings)))
     return bases
 
 
@@ -347,7 +369,7 @@ def kind_of(v):
     return "obj"
 
 
-def ast_mutants(root):
+def ast_mutants(root, only=None):
     """every structural mutant of a document, path by path: (description, mutated document)"""
     import copy
     retypes = [("null", None), ("bool", True), ("int", 1), ("float", 1.5), ("str", "x"), ("arr", []), ("obj", {})]
@@ -376,6 +398,8 @@ def ast_mutants(root):
         out.append(("%s %s" % (what, json.dumps(p)), d))
 
     for p in paths(root, []):
+        if only is not None and not only(p):
+            continue
         v = get(root, p)
         k = kind_of(v)
         for nm, val in retypes:
@@ -420,13 +444,112 @@ def ast_mutants(root):
     return out
 
 
+class Raw(str):
+    """a literal JSON token"""
+
+
+def dump(v):
+    """serializer that can emit raw tokens and objects with duplicate keys (list of pairs tagged 'PAIRS')"""
+    if isinstance(v, Raw):
+        return str(v)
+    if isinstance(v, tuple) and v[0] == "PAIRS":
+        return "{" + ",".join(json.dumps(k) + ":" + dump(x) for k, x in v[1]) + "}"
+    if isinstance(v, dict):
+        return "{" + ",".join(json.dumps(k) + ":" + dump(x) for k, x in v.items()) + "}"
+    if isinstance(v, list):
+        return "[" + ",".join(dump(x) for x in v) + "]"
+    return json.dumps(v)
+
+
+def near_misses(name):
+    out = [name, "", name.upper(), name.capitalize(), " " + name, name + " ", "\t" + name, name + "\n", name + "x", "_" + name]
+    look = {"a": "\u0430", "o": "\u043e", "e": "\u0435", "c": "\u0441", "p": "\u0440", "q": "\uff51", "l": "\uff4c", "i": "\u0456"}
+    for i, ch in enumerate(name):
+        out.append(name[:i] + ch.swapcase() + name[i + 1:])
+        out.append(name[:i])
+        out.append(name[i + 1:])
+        if ch in look:
+            out.append(name[:i] + look[ch] + name[i + 1:])
+    return out
+
+
+ENUM_VALUES = {"direct_solve_method": ["auto", "qdldl", "faer", "foo"],
+               "chordal_decomposition_merge_method": ["none", "parent_child", "clique_graph", "foo"]}
+
+
+def settings_near_miss_cases(defaults_rec):
+    """files whose settings are near misses of valid ones; loaded AND solved by the harness"""
+    sett = settings_object(defaults_rec)
+    sett["max_iter"] = 50
+    sett["time_limit"] = 5.0
+    name, base = "settings:nonneg", None
+    for nm, d in model_bases(sett):
+        if nm == "model:nonneg":
+            base = dict(d)
+    base["settings"] = sett
+    cases, seen = [], set()
+
+    def emit(what, settings_value):
+        d = dict(base)
+        d["settings"] = settings_value
+        text = dump(d)
+        if text not in seen:
+            seen.add(text)
+            cases.append({"kind": "fault", "base": name, "mut": what, "text": text})
+
+    emit("unchanged", sett)
+    for key, val in sett.items():
+        def with_(v):
+            o = dict(sett)
+            o[key] = v
+            return o
+        if isinstance(val, str):
+            for good in ENUM_VALUES.get(key, [val]):
+                for cand in near_misses(good):
+                    emit("string %s = %r" % (key, cand), with_(cand))
+            for tok in ("null", "0", "true", '["auto"]'):
+                emit("string %s = token %s" % (key, tok), with_(Raw(tok)))
+        elif isinstance(val, bool):
+            for tok in ("0", "1", '"true"', '"false"', "null"):
+                emit("bool %s = token %s" % (key, tok), with_(Raw(tok)))
+            emit("bool %s flipped" % key, with_(not val) if key not in ("direct_kkt_solver", "verbose") else with_(val))
+            if key == "direct_kkt_solver":
+                emit("bool direct_kkt_solver false", with_(False))
+        elif isinstance(val, int):
+            toks = ["-1", "-0", "1e400", "-0.0", "%d.0" % val, '"%d"' % val, "4294967296", "4294967295.0", "1e1", "null"]
+            if key == "max_iter":
+                toks.append("4294967295")
+            for tok in toks:
+                emit("uint %s = token %s" % (key, tok), with_(Raw(tok)))
+        elif isinstance(val, float):
+            for tok in ("1e400", "-1e400", "-0.0", "-0", '"%r"' % val, "null", "true", "[%r]" % val, "1e-400"):
+                emit("float %s = token %s" % (key, tok), with_(Raw(tok)))
+        # missing / duplicated / extra
+        o = dict(sett)
+        del o[key]
+        emit("missing %s" % key, o)
+        pairs = []
+        for k2, v2 in sett.items():
+            pairs.append((k2, v2))
+            if k2 == key:
+                pairs.append((k2, v2))
+        emit("duplicated %s" % key, ("PAIRS", pairs))
+        emit("extra key next to %s" % key, ("PAIRS", [(k2 + ("" if k2 != key else ""), v2) for k2, v2 in sett.items()] + [(key + "_", val), (key.upper(), val)]))
+    return cases
+
+
 def model_side_cases(defaults_rec, thorough):
     cases, seen = [], set()
     for name, base in model_bases(settings_object(defaults_rec)):
         text0 = json.dumps(base, separators=(",", ":"))
         seen.add(text0)
         cases.append({"kind": "fault", "base": name, "mut": "unchanged", "text": text0})
-        for what, d in ast_mutants(base):
+        # the per-variant documents share P, q, A with model:all (mutated there in full): only
+        # the parts that depend on the cone variant are mutated in them
+        only = None
+        if name not in ("model:all", "model:settings"):
+            only = lambda p: (p[:1] in (["cones"], ["b"])) or p == ["A", "m"] or p == []
+        for what, d in ast_mutants(base, only):
             text = json.dumps(d, separators=(",", ":"))
             if text in seen:
                 continue
@@ -453,7 +576,7 @@ def run(chk, replay=None):
     hok, hout = chk.build_harness(bin="c19")
     stats = {k: 0 for k in ("rt", "rt_skipped", "rt_reduced", "fault", "fault_panic", "fault_syntax_invalid", "fault_predicted",
                             "fault_not_predicted", "fault_ok", "fault_err", "text_layer_disagreements", "known_cones_collapsed",
-                            "known_b_capped", "known_time_limit_max", "save_bits_differ", "positional_form_disagreements", "verdict_inconclusive_flips")}
+                            "known_b_capped", "known_time_limit_max", "save_bits_differ", "positional_form_disagreements", "verdict_inconclusive_flips", "sites", "solve_after_load_abnormal", "settings_near_miss")}
     stats["rt_by_tag"] = {}
     recs = []
     hstats = {}
@@ -490,13 +613,16 @@ def run(chk, replay=None):
         if not replay and drec:
             # structural mutants generated on the AST side, field by field, for every cone variant
             mcases = model_side_cases(drec[0], chk.tier == "thorough")
+            ncases = settings_near_miss_cases(drec[0])
+            stats["settings_near_miss"] = len(ncases)
+            mcases = mcases + ncases
             mf = os.path.join(chk.wdir, "model_side_mutants.json")
             json.dump({"cases": mcases}, open(mf, "w"))
             rc, out2, rr = chk.run_harness(["--seed", str(chk.seed), "--tier", chk.tier, "--replay", mf], "cases_%s_modelside.jsonl" % pid, timeout=3000, bin="c19")
             if rc != 0:
                 broken.append("harness run (model-side mutants) failed rc=%d: %s" % (rc, out2[-800:]))
             rr = [r for r in rr if r.get("kind") == "fault"]
-            stats["model_side_mutants"] = len(rr)
+            stats["model_side_mutants"] = len(rr) - len(ncases)
             stats["model_side_ok"] = len([r for r in rr if r["observed"] == "ok"])
             if len(rr) != len({c["text"] for c in mcases}):
                 broken.append("model-side mutants: %d generated, %d loaded" % (len(mcases), len(rr)))
@@ -505,6 +631,8 @@ def run(chk, replay=None):
                 broken.append("model-side base documents do not load: %s" % unchanged_bad)
             recs.extend(rr)
     cases = process(chk, recs, stats)
+    if hok and not replay and stats.get("merge_consumer_reached") is not True:
+        broken.append("the merge-method consumer (chordal decomposition with more than one clique) is not reached by the sites test problem")
     bad, errors = ([], [])
     if ok and cases:
         bad, errors = chk.coq_eval(header(), cases, timeout=1500, per_shard=400)
